@@ -198,10 +198,10 @@ class _BaseLayout(MaildirLayout[_MaildirT], metaclass=ABCMeta):
 
     def add_folder(self, name: str, delimiter: str) -> None:
         parts = self._split(name, delimiter)
-        for i in range(1, len(parts) - 1):
+        for i in range(1, len(parts)):
             path = self._get_path(parts[0:i])
             if not os.path.isdir(path):
-                raise FileNotFoundError(path)
+                self.add_folder(self._join(parts[0:i], delimiter), delimiter)
         path = self._get_path(parts)
         self._maildir(path, create=True)
         maildirfolder = os.path.join(path, 'maildirfolder')
@@ -226,7 +226,7 @@ class _BaseLayout(MaildirLayout[_MaildirT], metaclass=ABCMeta):
                       delimiter: str) -> None:
         source_parts = self._split(source_name, delimiter)
         dest_parts = self._split(dest_name, delimiter)
-        for i in range(1, len(dest_parts) - 1):
+        for i in range(1, len(dest_parts)):
             parts = dest_parts[0:i]
             path = self._get_path(parts)
             if not os.path.isdir(path):
